@@ -29,6 +29,26 @@ func bindCall(fn *ssa.Function, args []ssa.Value) {
 	}
 }
 
+// withBinding runs f with fn's parameters bound to args and restores the previous bindings afterwards.
+func withBinding(fn *ssa.Function, args []ssa.Value, f func()) {
+	saved := map[*ssa.Parameter]ssa.Value{}
+	had := map[*ssa.Parameter]bool{}
+	for _, p := range fn.Params {
+		if v, ok := paramBind[p]; ok {
+			saved[p], had[p] = v, true
+		}
+	}
+	bindCall(fn, args)
+	f()
+	for _, p := range fn.Params {
+		if had[p] {
+			paramBind[p] = saved[p]
+		} else {
+			delete(paramBind, p)
+		}
+	}
+}
+
 func boundParam(v ssa.Value) (ssa.Value, bool) {
 	p, ok := v.(*ssa.Parameter)
 	if !ok {
@@ -274,6 +294,21 @@ func boolOutcomeFacts(v ssa.Value, truth bool, at *ssa.BasicBlock, depth int) []
 	switch x := v.(type) {
 	case *ssa.Phi:
 		cases = valueCases(x, at)
+	case *ssa.Extract:
+		// a boolean result of a multi-result helper: `if reply, act, done := answerLocally(r, c); done {…}`
+		call, ok := x.Tuple.(*ssa.Call)
+		if !ok || !inlining || curProg == nil || call.Call.IsInvoke() {
+			return nil
+		}
+		fn := call.Call.StaticCallee()
+		if fn == nil || !curProg.inlinable(fn) || x.Index >= fn.Signature.Results().Len() {
+			return nil
+		}
+		if b, ok := fn.Signature.Results().At(x.Index).Type().Underlying().(*types.Basic); !ok || b.Kind() != types.Bool {
+			return nil
+		}
+		bindCall(fn, call.Call.Args)
+		cases = returnCases(fn, x.Index)
 	case *ssa.Call:
 		if !inlining || curProg == nil || x.Call.IsInvoke() {
 			return nil
